@@ -176,11 +176,14 @@ Fixpoint mon_precommit_justified (vals : valset) (seen : list input) (steps : li
 Fixpoint exists_round (f : Z -> bool) (from : Z) (n : nat) : bool :=
   match n with O => false | S n' => f from || exists_round f (from + 1) n' end.
 
+Definition same_hash (x : blockid) (b : bid) : bool :=
+  match x with Some (h, _) => (h =? fst b)%N | None => false end.
+
 Definition other_polka (vals : valset) (dv : list vkey) (h : Z) (b : bid) (r r' : Z) : bool :=
   exists_round (fun r'' =>
-     (* some single value other than b with +2/3: check nil and every block id seen *)
+     (* some single value other than block b (compared by block hash) with +2/3: nil or any id seen *)
      existsb (fun k => let '(_, _, _, x, _) := k in
-                       negb (blockid_eqb x (Some b)) &&
+                       negb (same_hash x b) &&
                        is_quorum vals (tally vals dv PREVOTE h r'' (blockid_eqb x))) dv)
     (r + 1) (Z.to_nat (r' - r)).
 
@@ -195,7 +198,7 @@ Fixpoint mon_lock (vals : valset) (seen : list input) (locks : list (Z * Z * bid
                 | OSignVote t h r' x =>
                   if (t =? PREVOTE)%N then
                     forallb (fun l => let '(lh, lr, lb) := l in
-                       if (lh =? h) && (lr <? r') && negb (blockid_eqb x (Some lb))
+                       if (lh =? h) && (lr <? r') && negb (same_hash x lb)
                        then other_polka vals dv h lb lr r' else true) locks
                   else true
                 | _ => true end) (o_outs o) in
